@@ -62,9 +62,17 @@ def main():
                 for l in v["first"][:2]:
                     print("        %s: %s" % (q, l[:230]))
     print("benign refactorings: %d applied; silent %d, undecided %d, false alarm %d; %d do not apply" % (silent + alarm + undecided, silent, undecided, alarm, noapply))
+    by_round = {}
+    for bid, st_ in status.items():
+        rnd = "round 4" if int(bid.split("-")[1]) <= 4 else "round 5 (held out: written after the rules were generalised)"
+        d_ = by_round.setdefault(rnd, dict(silent=0, undecided=0, false_alarm=0, noapply=0))
+        key = "silent" if st_["status"] == "silent" else ("false_alarm" if st_["status"] == "FALSE ALARM" else ("undecided" if st_["status"].startswith("undecided") else "noapply"))
+        d_[key] += 1
+    for rnd, d_ in sorted(by_round.items()):
+        print("  %s: %s" % (rnd, d_))
     if len(ids) > 40:
         with open(os.path.join(VERIF, "benign", "STATUS.json"), "w") as f:
-            json.dump(dict(summary=dict(applied=silent + alarm + undecided, silent=silent, undecided=undecided, false_alarm=alarm, noapply=noapply,
+            json.dump(dict(by_round=by_round, summary=dict(applied=silent + alarm + undecided, silent=silent, undecided=undecided, false_alarm=alarm, noapply=noapply,
                                         scope="all checks" if ALL else "the property's own check"), changes=status), f, indent=1, sort_keys=True)
     return 0
 
